@@ -1,1 +1,227 @@
-"""rules for c14 (under construction)"""
+"""C14 - statistics are a faithful, uniquely keyed record of the run (structural clauses)."""
+
+import ast
+import re
+
+import networkx as nx
+
+from ..cfg import FuncCFG, walk_no_nested, ENTRY, EXIT
+from ..model import AnalysisError, ClassInfo
+from ..norm import Normalizer
+from ..runner import rule
+from .. import controllers as ct
+
+HK = 'pySDC/core/hooks.py'
+SH = 'pySDC/helpers/stats_helper.py'
+RECORD = ('add_to_stats', 'increment_stats')
+KEYS = ['process', 'time', 'level', 'iter', 'sweep', 'type']
+
+
+def _hooks(repo):
+    base = repo.cls(HK, 'Hooks')
+    return base, [c for c in repo.subclasses(base, strict=True) if repo.is_library(c)]
+
+
+def _record_calls(fn):
+    return [c for c in ast.walk(fn) if isinstance(c, ast.Call) and isinstance(c.func, ast.Attribute) and c.func.attr in RECORD and ast.unparse(c.func.value) == 'self']
+
+
+@rule('C14', 'C14.R1', 'key completeness: every record carries process, time, level, iter, sweep, type with the roles of the step/level it was issued for; num_restarts cannot be overridden', floor=32)
+def r1(ctx, R):
+    repo = ctx.repo
+    base, subs = _hooks(repo)
+    time_ok = re.compile(r'^(L\.time|L\.time \+ L\.dt|t|-1|self\.t_last_solution)$')
+    for ci in subs:
+        for name, fn in ci.methods.items():
+            calls = _record_calls(fn)
+            if not calls:
+                continue
+            w = f'{ci.module.relpath}:{ci.name}.{name}'
+            R.fn(w)
+            N = Normalizer(fn, inline_scalars=False)
+            La = N.env.alias.get('L')
+            for i, c in enumerate(calls):
+                kw = {k.arg: ast.unparse(k.value) for k in c.keywords if k.arg}
+                ty = kw.get('type', '?')
+                cons = f'{ci.name}.{name} :: record type={ty}'
+                missing = [k for k in KEYS if k not in kw]
+                if missing or 'value' not in kw and not c.args:
+                    R.bad(cons, w, f'keys {KEYS} + value', f'missing {missing}')
+                    continue
+                ok = time_ok.match(kw['time']) is not None and kw['process'] in ('step.status.slot', '-1') and kw['iter'] in ('step.status.iter', '-1', 'iter') and kw['level'] in ('L.level_index', '-1') and kw['sweep'] in ('L.status.sweep', '-1')
+                if ok and kw['time'] == 't':
+                    # the only sanctioned loop variable: for t in [L.time, L.time + L.dt]
+                    loops = [l for l in walk_no_nested(fn) if isinstance(l, ast.For) and ast.unparse(l.target) == 't']
+                    ok = len(loops) == 1 and ast.unparse(loops[0].iter) == '[L.time, L.time + L.dt]'
+                if ok and 'L.' in ' '.join(kw.values()):
+                    ok = La is not None and ast.unparse(La) == 'step.levels[level_number]'
+                R.check(ok, cons, w, 'process=step.status.slot|-1, time=L.time|L.time+L.dt, level=L.level_index|-1, iter=step.status.iter|-1, sweep=L.status.sweep|-1 with L = step.levels[level_number]', {k: kw[k] for k in KEYS})
+    # Hooks.add_to_stats / increment_stats: num_restarts after **kwargs
+    for m in RECORD:
+        fn = repo.func(HK, f'Hooks.{m}')
+        w = f'{HK}:Hooks.{m}'
+        R.fn(w)
+        d = [s.value for s in walk_no_nested(fn) if isinstance(s, ast.Assign) and ast.unparse(s.targets[0]) == 'meta' and isinstance(s.value, ast.Dict)]
+        ok = len(d) == 1
+        if ok:
+            ks = [(None if k is None else k.value, ast.unparse(v)) for k, v in zip(d[0].keys, d[0].values)]
+            pos_kw = [i for i, (k, v) in enumerate(ks) if k is None and v == 'kwargs']
+            pos_nr = [i for i, (k, v) in enumerate(ks) if k == 'num_restarts']
+            ok = len(pos_kw) == 1 and len(pos_nr) == 1 and pos_nr[0] > pos_kw[0] and ks[pos_nr[0]][1] == 'self._Hooks__num_restarts' or (len(pos_kw) == 1 and len(pos_nr) == 1 and pos_nr[0] > pos_kw[0] and ks[pos_nr[0]][1].endswith('__num_restarts'))
+        R.check(ok, f'Hooks.{m} :: num_restarts is placed after **kwargs (callers cannot override it)', w, "{**meta_data, **kwargs, 'num_restarts': self.__num_restarts}", [ast.unparse(x) for x in d])
+        key = [s for s in walk_no_nested(fn) if isinstance(s, (ast.Assign, ast.AugAssign)) and '__stats[' in ast.unparse(s.targets[0] if isinstance(s, ast.Assign) else s.target)]
+        R.check(bool(key) and all('entry(**meta)' in ast.unparse(s) or 'key' in ast.unparse(s) for s in key), f'Hooks.{m} :: the record is stored under the Entry built from that meta dict', w, 'self.__stats[self.entry(**meta)] = value', [ast.unparse(s)[:80] for s in key])
+
+
+def _recording_methods(repo, ci):
+    """names of methods (resolved on ci) that record directly"""
+    out = set()
+    for c in ci.mro:
+        if isinstance(c, ClassInfo):
+            for n, fn in c.methods.items():
+                if _record_calls(fn):
+                    out.add(n)
+    return out
+
+
+@rule('C14', 'C14.R2', 'restart count is current: a recording callback override calls super().<same callback>() before its first record (hooks are shared by all steps of a block)', floor=40)
+def r2(ctx, R):
+    repo = ctx.repo
+    base, subs = _hooks(repo)
+    # all base callbacks refresh the counter
+    for cb in ct.CALLBACKS:
+        fn = base.methods.get(cb)
+        if fn is None:
+            raise AnalysisError(f'Hooks.{cb} vanished')
+        src = [ast.unparse(s) for s in walk_no_nested(fn) if isinstance(s, ast.Assign)]
+        ok = any(re.fullmatch(r"self\.(_Hooks)?__num_restarts = step\.status\.get\('restarts_in_a_row'\) if step is not None else 0", s) for s in src)
+        R.check(ok, f'Hooks.{cb} :: refreshes num_restarts from the step it is called for', f'{HK}:Hooks.{cb}', "self.__num_restarts = step.status.get('restarts_in_a_row') if step is not None else 0", src)
+    for ci in subs:
+        recm = _recording_methods(repo, ci)
+        for name, fn in ci.methods.items():
+            if name not in ct.CALLBACKS:
+                continue
+            cfg = FuncCFG(fn)
+            rec_nodes = []
+            for n in cfg.stmt_of:
+                for c in cfg.calls_at(n):
+                    if isinstance(c.func, ast.Attribute) and ast.unparse(c.func.value) == 'self' and (c.func.attr in RECORD or (c.func.attr in recm and c.func.attr not in ct.CALLBACKS)):
+                        rec_nodes.append(n)
+            if not rec_nodes:
+                continue
+            w = f'{ci.module.relpath}:{ci.name}.{name}'
+            R.fn(w)
+            sup = [n for n in cfg.stmt_of if any(ast.unparse(c.func) == f'super().{name}' and [ast.unparse(a) for a in c.args][:2] == ['step', 'level_number'] for c in cfg.calls_at(n))]
+            ok = bool(sup) and all(any(cfg.dominates(s, r) and s != r for s in sup) for r in rec_nodes)
+            R.check(ok, f'{ci.name}.{name} :: super().{name}(step, level_number) dominates every record', w, 'base callback first (it refreshes the restart count for THIS step)', f'{len(sup)} super call(s), {len(rec_nodes)} recording site(s)')
+
+
+@rule('C14', 'C14.R3', 'recomputed markers: written at both ends of the step with the restart flag; the reader uses the same literal; consumed types are produced', floor=4)
+def r3(ctx, R):
+    repo = ctx.repo
+    rel = 'pySDC/implementations/hooks/default_hook.py'
+    fn = repo.func(rel, 'DefaultHooks.post_step')
+    w = f'{rel}:DefaultHooks.post_step'
+    R.fn(w)
+    marks = [c for c in _record_calls(fn) if {k.arg: ast.unparse(k.value) for k in c.keywords}.get('type') == "'_recomputed'"]
+    ok = len(marks) == 1
+    if ok:
+        kw = {k.arg: ast.unparse(k.value) for k in marks[0].keywords}
+        loops = [l for l in walk_no_nested(fn) if isinstance(l, ast.For) and marks[0] in list(ast.walk(l))]
+        ok = kw.get('value') == "step.status.get('restart')" and kw.get('time') == 't' and len(loops) == 1 and ast.unparse(loops[0].iter) == '[L.time, L.time + L.dt]'
+    R.check(ok, "DefaultHooks.post_step :: '_recomputed' = restart flag at L.time and L.time + L.dt", w, "for t in [L.time, L.time + L.dt]: add_to_stats(type='_recomputed', value=step.status.get('restart'), time=t)", [ast.unparse(c)[:120] for c in marks])
+    fs = repo.func(SH, 'filter_stats')
+    w = f'{SH}:filter_stats'
+    R.fn(w)
+    lits = sorted({c.value for c in ast.walk(fs) if isinstance(c, ast.Constant) and isinstance(c.value, str) and c.value.startswith('_')})
+    R.check(lits == ['_recomputed'], "filter_stats :: reads exactly the marker literal the hook writes", w, ['_recomputed'], lits)
+    # producer / consumer agreement of type literals inside the library
+    produced = set()
+    base, subs = _hooks(repo)
+    for ci in subs:
+        for fn in ci.methods.values():
+            for c in _record_calls(fn):
+                for k in c.keywords:
+                    if k.arg == 'type':
+                        if isinstance(k.value, ast.Constant):
+                            produced.add(k.value.value)
+                        elif isinstance(k.value, ast.JoinedStr):
+                            produced.add(''.join(v.value if isinstance(v, ast.Constant) else '*' for v in k.value.values))
+                        elif isinstance(k.value, (ast.Attribute, ast.Name)):
+                            produced.add('*')
+        for k, v in ci.class_assigns.items():
+            if k == 'name' and isinstance(v, ast.Constant):
+                produced.add(v.value)
+    consumed = []
+    for m in repo.modules.values():
+        if not repo.is_library(m):
+            continue
+        for c in ast.walk(m.tree):
+            if isinstance(c, ast.Call) and (ast.unparse(c.func).split('.')[-1] in ('get_sorted', 'filter_stats')):
+                for k in c.keywords:
+                    if k.arg == 'type' and isinstance(k.value, ast.Constant) and isinstance(k.value.value, str):
+                        consumed.append((m.relpath, k.value.value))
+    def is_produced(t):
+        for p in produced:
+            if p == t:
+                return True
+            if '*' in p and re.fullmatch(re.escape(p).replace(r'\*', '.*'), t):
+                return True
+        return False
+    for relp, t in sorted(set(consumed)):
+        R.check(is_produced(t), f"type {t!r} consumed in {relp.split('/')[-1]} is produced by a library hook", relp, 'a hook with add_to_stats(type=<that literal>)', 'no producer' if not is_produced(t) else 'ok')
+
+
+def _has_counter(repo, ci, key):
+    for c in ci.mro:
+        if isinstance(c, ClassInfo):
+            for fn in c.methods.values():
+                for s in ast.walk(fn):
+                    if isinstance(s, ast.Assign) and f"work_counters['{key}']" in ast.unparse(s.targets[0]):
+                        return True
+    return False
+
+
+@rule('C14', 'C14.R5', 'work counters: every eval_f of a class with a registered rhs counter ticks it exactly once on every path (or delegates)', floor=38)
+def r5(ctx, R):
+    repo = ctx.repo
+    base = repo.cls('pySDC/core/problem.py', 'Problem')
+    for ci in repo.subclasses(base, strict=True):
+        if not repo.is_library(ci) or 'eval_f' not in ci.methods or not _has_counter(repo, ci, 'rhs'):
+            continue
+        fn = ci.methods['eval_f']
+        w = f'{ci.module.relpath}:{ci.name}.eval_f'
+        R.fn(w)
+        cfg = FuncCFG(fn)
+        T = [n for n in cfg.stmt_of if any(ast.unparse(c.func) == "self.work_counters['rhs']" for c in cfg.calls_at(n))]
+        S = [n for n in cfg.stmt_of if any(ast.unparse(c.func) == 'super().eval_f' for c in cfg.calls_at(n))]
+        named = [n for n, s in cfg.stmt_of.items() if isinstance(s, ast.Expr) and ast.unparse(s.value) == "self.work_counters['rhs']"]
+        pts = T + S
+        at_least = bool(pts) and cfg.must_pass(ENTRY, EXIT, pts)
+        at_most = all(not (set(nx.descendants(cfg.g, t)) & set(pts)) for t in pts)
+        found = f'{len(T)} tick(s), {len(S)} super().eval_f' + (f"; {len(named)} statement(s) that NAME the counter without calling it" if named else '')
+        R.check(at_least and at_most, f"{ci.name}.eval_f :: work_counters['rhs']() exactly once per evaluation", w, 'one tick (or one delegation) on every path to return, never inside a loop', found)
+
+
+@rule('C14', 'C14.R6', 'helpers: filter_stats compares all supplied keys; sort_stats sorts ascending by the requested field', floor=3)
+def r6(ctx, R):
+    repo = ctx.repo
+    fs = repo.func(SH, 'filter_stats')
+    w = f'{SH}:filter_stats'
+    R.fn(w)
+    tests = [s.test for s in walk_no_nested(fs) if isinstance(s, ast.If)]
+    cands = [ast.unparse(t) for t in tests if '_asdict' in ast.unparse(t)]
+    first = cands[0] if cands else ''
+    ok = len(cands) == 1 and first.startswith('all([k._asdict().get(k2, None) == v2 for k2, v2 in kwargs.items() if v2 is not None]')
+    R.check(ok, 'filter_stats :: an entry is kept iff ALL supplied (non-None) keys are equal', w, 'all([k._asdict().get(k2) == v2 for k2, v2 in kwargs.items() if v2 is not None])', first)
+    ss = repo.func(SH, 'sort_stats')
+    w = f'{SH}:sort_stats'
+    R.fn(w)
+    srt = [c for c in ast.walk(ss) if isinstance(c, ast.Call) and ast.unparse(c.func) == 'sorted']
+    ok = len(srt) == 1 and not any(k.arg == 'reverse' for k in srt[0].keywords) and any(k.arg == 'key' and ast.unparse(k.value) == 'lambda tup: tup[0]' for k in srt[0].keywords)
+    R.check(ok, 'sort_stats :: ascending sort on the extracted field', w, 'sorted(result, key=lambda tup: tup[0])', [ast.unparse(c) for c in srt])
+    item = [s for s in walk_no_nested(ss) if isinstance(s, ast.Assign) and ast.unparse(s.value) == 'getattr(k, sortby)']
+    R.check(len(item) == 1, 'sort_stats :: the field is the requested key of the entry', w, 'item = getattr(k, sortby)', [ast.unparse(s) for s in item])
+    gs = repo.func(SH, 'get_sorted')
+    src = ast.unparse(gs)
+    R.check('sort_stats(filter_stats(stats, **kwargs), sortby=sortby)' in src, 'get_sorted :: filter, then sort', f'{SH}:get_sorted', 'sort_stats(filter_stats(stats, **kwargs), sortby=sortby)', src[-90:])
